@@ -30,7 +30,7 @@ ASSUMPTIONS = [
 REQUIRED_MONITORS = ["pinhole_converges", "slit_length_converges", "slit_width_converges", "slit_both_converges", "pinhole2d_increment"]
 REQUIRED_BUCKETS = {"quick": ["geom:pinhole", "geom:slit(L,0)", "geom:slit(0,W)", "geom:slit(L,W)", "geom:2d",
                               "f:poly", "f:lorentz2", "f:dampedcos", "window_crosses_zero", "acc:low", "acc:med",
-                              "acc:high", "acc:xhigh", "q<W"]}
+                              "acc:high", "acc:xhigh", "q<W", "sigma:interior-point-widest", "pixel_on_axis"]}
 REQUIRED_BUCKETS["thorough"] = REQUIRED_BUCKETS["quick"]
 
 
@@ -105,6 +105,11 @@ def run_1d(case, rec):
         if case["k"] % 4 == 0:
             s = q*float(rng.uniform(0.45, 0.9))        # window reaches below q = 0
             rec.bucket("window_crosses_zero")
+        if case["k"] % 3 == 1:
+            # widths that are not monotone in q (merged instrument settings): the widest window belongs to an
+            # interior point and reaches past the windows of both end points
+            s = s*np.array([1.0, float(rng.uniform(2.5, 5.0)), 1.0])
+            rec.bucket("sigma:interior-point-widest")
         width = float(np.min(s))
         lo, hi = float(np.min(q - 2.5*s)), float(np.max(q + 3*s))
         exact = np.array([exact_pinhole(f, qi, si) for qi, si in zip(q, s)])
@@ -208,8 +213,10 @@ def run_2d(case, rec):
     ang = np.concatenate([[0.0, np.pi/2, np.pi, 3*np.pi/2], rng.uniform(0, 2*np.pi, n - 4)])
     d = _D2()
     d.qx_data, d.qy_data = qmag*np.cos(ang), qmag*np.sin(ang)
-    # avoid exact zeros of qx (the code divides qy/qx)
-    d.qx_data = np.where(np.abs(d.qx_data) < 1e-12*qmag, 1e-9*qmag, d.qx_data)
+    # pixels exactly on the axes (odd-sized detector centred on the beam): qx == 0 and qy == 0 exactly
+    d.qx_data = np.where(np.abs(d.qx_data) < 1e-12*qmag, 0.0, d.qx_data)
+    d.qy_data = np.where(np.abs(d.qy_data) < 1e-12*qmag, 0.0, d.qy_data)
+    rec.bucket("pixel_on_axis")
     d.q_data = qmag
     sr = qmag*10**rng.uniform(-2, -0.7, n)
     st = qmag*10**rng.uniform(-2, -0.7, n)
